@@ -1,5 +1,9 @@
 import Lace.Props.C14
 #print axioms Lace.C14.parse_integer_eq_grammar
+#print axioms Lace.C14.parse_command_eq_grammar
+#print axioms Lace.C14.parse_no_panic
+#print axioms Lace.C14.reader_lines_valid
+#print axioms Lace.C14.session_no_panic
 #print axioms Lace.C14.split_argument_eq_split_stdin
 #print axioms Lace.C14.read_no_panic
 #print axioms Lace.C14.session_eq_lines
@@ -8,3 +12,5 @@ import Lace.Props.C14
 #print axioms Lace.C14.transport_independent_argument_only
 #print axioms Lace.C14.separators_equivalent
 #print axioms Lace.C14.swapSeparators_ok
+#print axioms Lace.C14.commandTable_unambiguous
+#print axioms Lace.C14.parse_offsets_in_range
